@@ -42,6 +42,7 @@ import Ymq.Lemmas.PolyMiddle
 import Ymq.Lemmas.PolyTree
 import Ymq.Lemmas.PolyRootsEval
 import Ymq.Lemmas.PolyBarrett
+import Ymq.Lemmas.PolyRootsUnit
 import Ymq.Lemmas.PolyMont
 import Ymq.Lemmas.PolyMontFin
 
@@ -994,7 +995,7 @@ reversed top node of the tree over `b` with `revq[n]` left zero, `_inv_mod_xn` o
 reversed inverse, quotient slice `quo[n-1 .. 2n-2]` times `Q`), the `debug_assert!` that the high
 halves agree (PROVED to hold: `barrett_high`, the reversal argument), the subtraction of the low
 halves; finally `_multi_eval` on the tree and `truncate(b.len())`.
-Not covered: `|b| = 1` (`n = 1`; compared by K/O only). -/
+`|b| = 1` (`n = 1`) is `roots_eval_unit_spec`; `roots_eval_full_spec` joins the two. -/
 theorem roots_eval_spec {α R : Type} [CommRing R] [Nontrivial R] {o : Ops α} {φ : α → R}
     (h : HomC o φ) (a b : List α) (ha1 : 1 ≤ a.length) (hb2 : 2 ≤ b.length)
     (hb61 : Ymq.Checked.bitlen (b.length - 1) ≤ 61) (hinv : ∃ i, o.inv o.one = some i) :
@@ -1016,6 +1017,51 @@ theorem roots_eval_zmod (n : Nat) (hn : 1 < n) (a b : List Nat) (ha1 : 1 ≤ a.l
     ⟨1, by
       show Ymq.PolySpec.invMod (1 % n) n = some 1
       rw [Nat.mod_eq_of_lt hn, invMod_one n hn, Nat.mod_eq_of_lt hn]⟩
+
+/-- **`Poly::roots_eval(a, [b])`: a single evaluation point.** The tree over `b` has size `n = 1`, so the code
+always takes the chunked branch with chunks of one root: `revq = [1, 0]`, `_inv_mod_xn` returns `[1, -0]` by
+its length-2 shortcut (no scratch needed: `tmp` has 6 entries), every round multiplies two constants by
+`_longmul`, the quotient slice `quo[0..0]` is EMPTY, the third `_longmul` runs on an empty first operand
+(`_basic_mul` zero-fills `z`), the `debug_assert!` compares `pp[1] = 0` with `pq[1] = 0`, and the result is
+`pp[0] - 0`. The model reaches no panic site and returns `∏_i (b - a_i)`. -/
+theorem roots_eval_unit_spec {α R : Type} [CommRing R] [Nontrivial R] {o : Ops α} {φ : α → R}
+    (h : HomC o φ) (a : List α) (b0 : α) (ha1 : 1 ≤ a.length) (hinv : ∃ i, o.inv o.one = some i) :
+    ∃ vals, rootsEval o a [b0] = some vals ∧ vals.length = 1 ∧
+      φ (vals.getD 0 o.zero) = (a.map fun r => φ b0 - φ r).prod :=
+  rootsEval_unit_spec h a b0 ha1 hinv
+
+/-- **`Poly::roots_eval` for every `|a| ≥ 1`, `1 ≤ |b| ≤ 2^61`**: `roots_eval_spec` and `roots_eval_unit_spec`
+together. -/
+theorem roots_eval_full_spec {α R : Type} [CommRing R] [Nontrivial R] {o : Ops α} {φ : α → R}
+    (h : HomC o φ) (a b : List α) (ha1 : 1 ≤ a.length) (hb1 : 1 ≤ b.length)
+    (hb61 : Ymq.Checked.bitlen (b.length - 1) ≤ 61) (hinv : ∃ i, o.inv o.one = some i) :
+    ∃ vals, rootsEval o a b = some vals ∧ vals.length = b.length ∧
+      ∀ j, j < b.length →
+        φ (vals.getD j o.zero) = (a.map fun r => φ (b.getD j o.zero) - φ r).prod := by
+  rcases Nat.lt_or_ge b.length 2 with hb | hb
+  · obtain ⟨b0, rfl⟩ : ∃ b0, b = [b0] := by
+      match b, hb1, hb with
+      | [b0], _, _ => exact ⟨b0, rfl⟩
+    obtain ⟨vals, e, l, hv⟩ := rootsEval_unit_spec h a b0 ha1 hinv
+    refine ⟨vals, e, l, fun j hj => ?_⟩
+    have : j = 0 := by simpa using hj
+    subst this
+    simpa using hv
+  · exact roots_eval_spec h a b ha1 hb hb61 hinv
+
+/-- the same for what the driver runs with `natOps n` (`pf_roots_eval`) -/
+theorem roots_eval_full_zmod (n : Nat) (hn : 1 < n) (a b : List Nat) (ha1 : 1 ≤ a.length) (hb1 : 1 ≤ b.length)
+    (hb61 : Ymq.Checked.bitlen (b.length - 1) ≤ 61) :
+    ∃ vals, rootsEval (natOps n) a b = some vals ∧ vals.length = b.length ∧
+      ∀ j, j < b.length →
+        ((vals.getD j 0 : ℕ) : ZMod n) = (a.map fun r => ((b.getD j 0 : ℕ) : ZMod n) - ((r : ℕ) : ZMod n)).prod := by
+  haveI : Fact (1 < n) := ⟨hn⟩
+  exact roots_eval_full_spec (natOps_homC n (by omega)) a b ha1 hb1 hb61
+    ⟨1, by
+      show Ymq.PolySpec.invMod (1 % n) n = some 1
+      rw [Nat.mod_eq_of_lt hn, invMod_one n hn, Nat.mod_eq_of_lt hn]⟩
+
+example : rootsEval (natOps 101) [1, 2, 3] [7] = some [19] := by decide
 
 /-- the long branch on an instance: `|a| = 5 ≥ n = 2`, three chunks -/
 example : rootsEval (natOps 101) [1, 2, 3, 4, 5] [7, 9] = some [13, 54] := by decide
@@ -1244,6 +1290,16 @@ theorem fft_midmul_word_eq (n kw rinv : Nat) (hn : 0 < n) (k : Nat) (m : Ymq.Crt
     (fftMidmul k (montFin n kw rinv hn) zlen p q).map (·.map Fin.val) =
       wordMidmul m rts rinv zlen (p.map Fin.val) (q.map Fin.val) :=
   fftMidmul_word_eq k m hm hbits hk31 rts hrts zlen p q
+
+/-- `Poly::roots_eval` under the Montgomery operations (`pfm_roots_eval`), every `|b| ≥ 1` -/
+theorem roots_eval_full_mont (n kw rinv : Nat) (hn : 1 < n) (hR : 2 ^ (64 * kw) * rinv % n = 1 % n)
+    (a b : List Nat) (ha1 : 1 ≤ a.length) (hb1 : 1 ≤ b.length) (hb61 : Ymq.Checked.bitlen (b.length - 1) ≤ 61)
+    (hinv : ∃ i, (montOps n kw rinv).inv (montOps n kw rinv).one = some i) :
+    ∃ vals, rootsEval (montOps n kw rinv) a b = some vals ∧ vals.length = b.length ∧
+      ∀ j, j < b.length →
+        mphi n rinv (vals.getD j 0) = (a.map fun r => mphi n rinv (b.getD j 0) - mphi n rinv r).prod := by
+  haveI : Fact (1 < n) := ⟨hn⟩
+  exact roots_eval_full_spec (montOps_homC n kw rinv (by omega) hR) a b ha1 hb1 hb61 hinv
 
 end Production
 
